@@ -31,7 +31,7 @@ class C01(Harness):
         "CutoffSplitter: cutoffs >= 0, distinct",
         "sliding splitter with initial_window: initial_window > window_length and start_with_window=True (otherwise ValueError by design)",
     )
-    outside = ("series longer than the stated n", "in-sample horizons for splitters", "datetime / period indices")
+    outside = ("series longer than the stated n", "for in-sample / mixed horizons (first step <= 0): which requests are refused, first and last cutoff, window length and the no-leak clause (the window necessarily overlaps the test positions)", "in-sample horizons for the single-window and cutoff splitters", "datetime / period indices")
 
     def bounds(self, tier):
         return {"window_step_initial_window": "1..n_max+3 (symbolic)", "n_max": 8 if tier == "quick" else 12, "fh_steps": [1, 2] if tier == "quick" else [1, 2, 3], "cutoffs": [1, 2] if tier == "quick" else [1, 2, 3]}
@@ -42,6 +42,10 @@ class C01(Harness):
         for kind in ("sliding", "expanding", "sliding_iw", "single", "single_nowl"):
             for k in b["fh_steps"]:
                 out.append({"name": "%s-k%d" % (kind, k), "kind": kind, "K": k, "N": b["n_max"], "cost": k * (3 if kind.startswith("sliding") else 2)})
+        # in-sample and mixed horizons (first step <= 0): only the clauses that still make sense are judged
+        for kind in ("sliding_is", "expanding_is"):
+            for k in b["fh_steps"][:2]:
+                out.append({"name": "%s-k%d" % (kind, k), "kind": kind, "K": k, "N": b["n_max"], "cost": k * 3})
         for k in b["fh_steps"][:2]:
             for nc in b["cutoffs"]:
                 out.append({"name": "cutoff-k%d-c%d" % (k, nc), "kind": "cutoff", "K": k, "NC": nc, "N": b["n_max"], "cost": k * nc})
@@ -80,9 +84,13 @@ class C01(Harness):
             inp["withX"] = bool(ctx.fresh_bool("withX"))
             return inp
         fh = fresh_ints(ctx, "h", K)
-        increasing(ctx, fh, lo=1)
+        if kind.endswith("_is"):
+            increasing(ctx, fh, lo=-(N + 1))
+            ctx.assume(fh[0] <= 0)
+        else:
+            increasing(ctx, fh, lo=1)
         inp["fh"] = fh
-        if kind in ("sliding", "expanding", "sliding_iw"):
+        if kind in ("sliding", "expanding", "sliding_iw", "sliding_is", "expanding_is"):
             inp["wl"] = ctx.fresh_int("wl")
             inp["sl"] = ctx.fresh_int("sl")
             # upper bounds only keep the exploration finite when a (mutated) feasibility check lets an oversized
@@ -135,11 +143,11 @@ class C01(Harness):
             return self._tts(W, sp, inp, cell)
         y = pd.RangeIndex(n)
         fh = np.array(inp["fh"])
-        if kind == "sliding":
+        if kind in ("sliding", "sliding_is"):
             cv = sp.SlidingWindowSplitter(fh=fh, window_length=inp["wl"], step_length=inp["sl"], start_with_window=inp["sww"])
         elif kind == "sliding_iw":
             cv = sp.SlidingWindowSplitter(fh=fh, window_length=inp["wl"], step_length=inp["sl"], initial_window=inp["iw"], start_with_window=True)
-        elif kind == "expanding":
+        elif kind in ("expanding", "expanding_is"):
             cv = sp.ExpandingWindowSplitter(fh=fh, initial_window=inp["wl"], step_length=inp["sl"], start_with_window=inp["sww"])
         elif kind == "single":
             cv = sp.SingleWindowSplitter(fh=fh, window_length=inp["wl"])
@@ -197,6 +205,8 @@ class C01(Harness):
         kind, n = cell["kind"], inp["n"]
         if kind.startswith("tts"):
             return self._tts_oracle(P, inp, out, cell)
+        if kind.endswith("_is"):
+            return self._in_sample_oracle(P, inp, out, cell)
         fh = inp["fh"]
         K = len(fh)
         hK = fh[-1]
@@ -284,6 +294,40 @@ class C01(Harness):
                 for d in cuts:
                     hit = (d == c) | hit
                 P.check("cutoff-reported", hit)
+
+    def _in_sample_oracle(self, P, inp, out, cell):
+        """Horizons whose first step is <= 0: the training window necessarily overlaps the test positions, and which
+        windows the library refuses is not documented, so only these clauses are judged on every accepted request:
+        one test position per step, each exactly cutoff + step and inside the series, contiguous training windows in
+        the series, reported cutoffs / number of splits equal to the yielded ones, cutoffs advancing by the step."""
+        n, fh, K, sl = inp["n"], inp["fh"], len(inp["fh"]), inp["sl"]
+        if out["rejected"]:
+            return
+        splits, cuts = out["splits"], out["cutoffs"]
+        P.check("n-splits", (len(cuts) == len(splits)) and (out["n_splits"] == len(splits)))
+        if len(cuts) != len(splits):
+            return
+        prev = None
+        for i, (tr, te) in enumerate(splits):
+            if len(tr):
+                c = tr[-1]
+                for a, b in zip(tr, tr[1:]):
+                    P.check("train-contiguous", b == a + 1)
+                P.check("train-in-series", (tr[0] >= 0) & (c < n))
+                if cell["kind"] == "expanding_is":
+                    P.check("expanding-starts-at-0", tr[0] == 0)
+            else:
+                c = cuts[i]
+            P.eq("cutoff-reported", cuts[i], c)
+            P.check("test-is-cutoff-plus-fh", len(te) == K)
+            if len(te) != K:
+                continue
+            for h, t in zip(fh, te):
+                P.eq("test-is-cutoff-plus-fh", t, c + h)
+                P.check("test-in-series", (t >= 0) & (t <= n - 1))
+            if prev is not None:
+                P.eq("step", c, prev + sl)
+            prev = c
 
     def _tts_oracle(self, P, inp, out, cell):
         kind, n = cell["kind"], inp["n"]
